@@ -212,7 +212,7 @@ def codes(s: str) -> list[int]:
 
 
 def project_case(sandbox: Path, case: dict) -> dict:
-    """Run the real write_project for one case inside `sandbox` (a fresh directory the caller owns) and record
+    """Run the real write_project for one case inside `sandbox` (a directory the caller owns) and record
     what a user / PlatformIO can observe: outcome, the bytes of src/main.cpp, platformio.ini read back with the
     standard parser, the listing of the project directory, and everything that happened outside it.
 
@@ -220,13 +220,16 @@ def project_case(sandbox: Path, case: dict) -> dict:
     pio = pio_module()
     sandbox = Path(sandbox)
     outside = sandbox / "outside"
-    outside.mkdir(parents=True)
+    if not outside.exists():      # the surroundings are reused from case to case (and re-verified every time)
+        outside.mkdir(parents=True)
+        (outside / "src").mkdir()
     (outside / "sentinel.txt").write_text("do not touch\n")
     (outside / "platformio.ini").write_text("[env:other]\nboard = other\n")
-    (outside / "src").mkdir()
     (outside / "src" / "main.cpp").write_text("// someone else's sketch\n")
     pre = case.get("pre", "absent")
     proj = outside / "work" / "proj" if pre != "nested" else outside / "work" / "a" / "b" / "proj"
+    if (outside / "work").exists():
+        shutil.rmtree(outside / "work")
     (outside / "work").mkdir()
     if pre in ("empty", "stale"):
         proj.mkdir(parents=True)
